@@ -599,6 +599,21 @@ fn bad_line(rng: &mut Rng) -> String {
             _ => format!("cmd:{}", "stop".repeat(n)),
         };
     }
+    if rng.chance(1, 5) {
+        // a numeric field that overflows its type but whose low bits are a valid value: must be ignored, not truncated
+        let d = *rng.pick(&['1', '2', '8', 'f', 'F']);
+        let port = rng.range(1, 11);
+        let a = *rng.pick(&[0xffc000u32, 0xffbf20, 0x400100, 0xffc001, 0x410000]) + rng.below(8) as u32;
+        let v = rng.u8();
+        return match rng.below(6) {
+            0 => format!("ioport:{}{:02x}:{:x}", d, port, v),
+            1 => format!("ioport:{}00{:02x}:{:x}", d, port, v),
+            2 => format!("ioport:{:x}:{}{:02x}", port, d, v),
+            3 => format!("u8:{}{:08x}:{:x}", d, a, v),
+            4 => format!("u8:{:x}:{}{:02x}", a, d, v),
+            _ => format!("u8:{:x}:{}000000{:02x}", a, d, v),
+        };
+    }
     if rng.chance(1, 6) {
         // random printable garbage with colons
         let n = rng.range(0, 24);
